@@ -27,6 +27,11 @@ mod common;
 mod text;
 mod ops;
 mod replay;
+mod refchess;
+mod posgen;
+mod c11;
+mod c12;
+mod c14;
 mod c15;
 
 fn main() {
@@ -44,10 +49,22 @@ fn main() {
     let n: usize = args[3].parse().expect("n");
     let outdir = std::path::PathBuf::from(&args[4]);
     std::fs::create_dir_all(&outdir).unwrap();
+    // panics of the engine under test are caught per operation; keep the default hook quiet
+    std::panic::set_hook(Box::new(|_| {}));
     let mut out = common::Out::new(&outdir);
     let mut rng = common::Rng::new(seed);
     match prop {
         "c15" => c15::run(&mut rng, n, &mut out),
+        "c11" => c11::run(&mut rng, n, &mut out),
+        "c12" => c12::run(&mut rng, n, &mut out),
+        "c14" => c14::run(&mut rng, n, &mut out),
+        "dbg" => {
+            let g = posgen::Gen::new();
+            for fen in posgen::CORPUS {
+                let b = board::Board::new(fen);
+                println!("{} valid={} moves={}", fen, refchess::valid(&b), g.mg.generate_moves(&b).len());
+            }
+        }
         _ => {
             eprintln!("unknown property {prop}");
             std::process::exit(2);
